@@ -96,6 +96,9 @@ func c04Judge(c *mon.Ctx, aText, bText string, o OptSet, class string) {
 	got := A.Equals(B, o.O()...)
 	rev := mkB().Equals(mkA(), o.O()...)
 	refl := mkA().Equals(ReadJ(aText), o.O()...) && ReadJ(aText).Equals(mkA(), o.O()...)
+	if same := mkA(); !same.Equals(same, o.O()...) {
+		refl = false // the very same node on both sides
+	}
 	if aText != bText {
 		c.Nontrivial(joinKey(aText, bText, o.Name))
 	}
